@@ -403,7 +403,39 @@ func runC05(c *Ctx) {
 		}
 		s.flush()
 	})
-	c.Require("ties:mul", "ties:div", "rounded:split", "threshold_verdicts")
+	// (4) precisions far apart: small values whose operands or target precisions lie
+	// 10 to 18 decimals from each other (every power of ten up to 10^18 is used)
+	wide := 25
+	c.Parallel((2*wide+1)*4, func(i int) {
+		s := &c05state{c: c, local: map[string]int64{}}
+		av := int64(i%(2*wide+1) - wide)
+		ae := uint32(i / (2*wide + 1))
+		a := num.MakeAmount(av, ae)
+		var n, d int64
+		if s.unary(a, 18, 3) {
+			d++
+		}
+		n++
+		for be := uint32(8); be <= 18; be++ {
+			for _, bv := range []int64{0, 1, -1, 2, 5, -5, 15, 49, 50, -50, 51, 99, 100, 12345, -99999, 1000000, 4999999, 5000000, -5000001, 123456789012} {
+				b := num.MakeAmount(bv, be)
+				n += 3
+				if s.binary(a, b) {
+					d++
+				}
+				if s.binary(b, a) {
+					d++
+				}
+				if s.unary(b, 4, 2) {
+					d++
+				}
+			}
+		}
+		c.R.Cases(n, d)
+		s.cnt("wide_gap_operand_sets")
+		s.flush()
+	})
+	c.Require("ties:mul", "ties:div", "rounded:split", "threshold_verdicts", "wide_gap_operand_sets")
 }
 
 func randMag(rng *rand.Rand, maxBits int) int64 {
